@@ -286,6 +286,29 @@ def _gen_ops(rng, tier, profile, n_geos):
   n_search = 0
   have_list = False
   have_answer = False
+  follow_up = None
+  last_q = None
+  if listing_heavy and 'mutate_returned' in enabled and rng.random() < 0.6:
+    # scripted opening: a listing is started and left suspended; what queries
+    # hand out meanwhile is modified by the caller, and the question asked
+    # again -- then the random history goes on with the listing still alive
+    op = {'op': 'open', 'c': 0, 'lid': next_lid}
+    if rng.random() < 0.5:
+      op.update({'kind': 't', 'n': rng.choice((1, 2, 2))})
+    else:
+      op.update({'kind': 'c', 't': _picks(rng, rng.choice((1, 1, 2)))})
+    ops.append(op)
+    ops.append({'op': 'step', 'c': 0, 'lid': next_lid, 'k': 1})
+    open_lids.append(next_lid)
+    next_lid += 1
+    for _ in range(rng.choice((1, 2, 2))):
+      name = rng.choice(['geo_assignments', 'geo_assignments'] + list(QUERIES))
+      last_q = {'op': 'q', 'c': rng.randrange(n_clients), 'name': name}
+      ops.append(dict(last_q))
+      ops.append({'op': 'mutate_returned', 'c': last_q['c'],
+                  'how': rng.choice(('clear', 'add', 'discard_one'))})
+      ops.append(dict(last_q))
+    have_answer = True
   for _ in range(n_steps):
     kinds = [k for k in w
              if not (k in ('step', 'close', 'abandon') and not open_lids)
@@ -295,14 +318,32 @@ def _gen_ops(rng, tier, profile, n_geos):
              and not (k == 'mutate_returned' and not have_answer)
              and not (k in ('exhaustive', 'greedy') and n_search >= max_searches)]
     kind = rng.choices(kinds, weights=[w[k] for k in kinds])[0]
+    # the informative sequel of a vandalising step: after the caller scribbled
+    # on designs it was handed, a SEARCH (are later scores affected?); after it
+    # modified a returned container, the SAME question again (is the answer
+    # served from what the caller now holds?)
+    if follow_up == 'search' and n_search <= max_searches and (
+        rng.random() < 0.7):
+      kind = rng.choice(('exhaustive', 'greedy', 'greedy'))
+    elif follow_up == 'ask_again' and last_q is not None and (
+        rng.random() < 0.6):
+      kind = last_q['op']
+    ask_again = follow_up == 'ask_again' and last_q is not None and (
+        kind == last_q['op'])
+    follow_up = None
     op = {'op': kind, 'c': rng.randrange(n_clients)}
-    if kind == 'q':
+    if ask_again:
+      op.update({k: v for k, v in last_q.items() if k not in ('op', 'c', 'interrupt')})
+    elif kind == 'q':
       op['name'] = rng.choice(QUERIES)
       if listing_heavy and open_lids and rng.random() < 0.5:
         op['name'] = 'geo_assignments'
       have_answer = True
     elif kind == 'mutate_returned':
       op['how'] = rng.choice(('clear', 'add', 'discard_one'))
+      follow_up = 'ask_again'
+    elif kind == 'mutate_designs':
+      follow_up = 'search'
     elif kind == 'sibling':
       op['variant'] = rng.randrange(2)
       op['what'] = rng.choice(('greedy', 'greedy', 'exhaustive', 'query',
@@ -345,6 +386,8 @@ def _gen_ops(rng, tier, profile, n_geos):
                                'open_c_invalid'))
     elif kind == 'mutate_snapshot':
       op['how'] = rng.choice(('clear', 'pop', 'reverse', 'append_none'))
+    if kind in ('q', 'list_t', 'list_c'):
+      last_q = op
     if kind in INTERRUPTIBLE and rng.random() < p_interrupt:
       exc = rng.choice(('KeyboardInterrupt', 'KeyboardInterrupt',
                         'MemoryError'))
